@@ -76,7 +76,7 @@ func runC04(c *Ctx) {
 		e.Run()
 	}
 	c.Meta(map[string]interface{}{
-		"rule": "at every state reached by BFS (contents + key alphabet, value tables with 2^53+1, MaxInt64, MaxUint64, ns timestamps) the complete observation vector (all reads, every field x operator x probe with result order on indexed fields, AssignIndex, And/Or pairs) is taken, the handle is closed (or, in synchronous configurations, abandoned) and a new one opened on the same directory, and the vector must be identical; reopen/abandon are also alphabet letters so later calls must keep refining the reference. Non-trivial = distinct non-empty observation vectors compared.",
+		"rule":    "at every state reached by BFS (contents + key alphabet, value tables with 2^53+1, MaxInt64, MaxUint64, ns timestamps) the complete observation vector (all reads, every field x operator x probe with result order on indexed fields, AssignIndex, And/Or pairs) is taken, the handle is closed (or, in synchronous configurations, abandoned) and a new one opened on the same directory, and the vector must be identical; reopen/abandon are also alphabet letters so later calls must keep refining the reference. Non-trivial = distinct non-empty observation vectors compared.",
 		"configs": cfgs, "depth": depth,
 	})
 }
@@ -195,7 +195,7 @@ func runC12(c *Ctx) {
 	}
 	c.Max("depth_completed", depth)
 	c.Meta(map[string]interface{}{
-		"rule": "every history up to the depth over the alphabet is executed under the reference configuration (sync, no cache, no compression, struct-tag indexes) and under every other configuration; the normalised observation vector (all reads, Exist, every field x operator x probe as a set, And/Or pairs, ill-formed queries: unknown field/operator, mistyped value, invalid pattern, on indexed and unindexed fields; Control after FlushAllAndCommit) must be identical. Non-trivial = distinct reference observation vectors of histories with >= 2 calls.",
+		"rule":      "every history up to the depth over the alphabet is executed under the reference configuration (sync, no cache, no compression, struct-tag indexes) and under every other configuration; the normalised observation vector (all reads, Exist, every field x operator x probe as a set, And/Or pairs, ill-formed queries: unknown field/operator, mistyped value, invalid pattern, on indexed and unindexed fields; Control after FlushAllAndCommit) must be identical. Non-trivial = distinct reference observation vectors of histories with >= 2 calls.",
 		"reference": ref, "configs_compared": len(others), "depth": depth, "histories": len(paths),
 	})
 }
